@@ -64,6 +64,7 @@ fn gap(r: &mut Rng, o: &LayoutOpts, must_space: bool, want_newline: bool, had_co
                         s.push(' ');
                     }
                     s.push_str(t);
+                    s.push_str(&format!("~{}", r.below(100000)));
                     s.push_str(nl(r, o));
                 }
                 1 => {
@@ -71,13 +72,14 @@ fn gap(r: &mut Rng, o: &LayoutOpts, must_space: bool, want_newline: bool, had_co
                     let level = if t.contains("]]") { 2 } else { r.below(2) };
                     let eq = "=".repeat(level);
                     let t2 = if level == 2 && t.contains("]==]") { " x " } else { t };
-                    s.push_str(&format!("--[{}[{}]{}]", eq, t2, eq));
+                    s.push_str(&format!("--[{}[{}~{}]{}]", eq, t2, r.below(100000), eq));
                 }
                 _ => {
                     let t = *r.pick(&COMMENT_TEXTS);
                     let eq = "=".repeat(1 + r.below(2));
                     let t2 = if t.contains("]=]") { " y " } else { t };
-                    s.push_str(&format!("--[{}[{}{}]{}]", eq, t2, nl(r, o), eq));
+                    let serial = r.below(100000);
+                    s.push_str(&format!("--[{}[{}~{}{}]{}]", eq, t2, serial, nl(r, o), eq));
                 }
             }
         } else if roll < o.comment_pct + o.newline_pct {
